@@ -15,6 +15,16 @@ def _hashseed_for(vseed: int) -> str:
     return str(vseed % 4294967296)
 
 
+def _env_seed(text: str) -> int:
+    """VERIF_SEED is normally an integer; anything else is folded into one deterministically."""
+    text = (text or "0").strip()
+    try:
+        return abs(int(text, 0))
+    except ValueError:
+        import hashlib
+        return int.from_bytes(hashlib.sha256(text.encode()).digest()[:6], "big")
+
+
 def main(argv):
     import argparse
 
@@ -34,7 +44,7 @@ def main(argv):
     ap.add_argument("--mutants", default=None, help="selftest-sensitivity: comma separated mutant names")
     a = ap.parse_args(argv)
 
-    vseed = a.seed if a.seed is not None else int(os.environ.get("VERIF_SEED", "0") or 0)
+    vseed = a.seed if a.seed is not None else _env_seed(os.environ.get("VERIF_SEED", "0"))
     want_hs = str(a.hashseed) if a.hashseed is not None else None
     if a.replay and want_hs is None:
         try:
